@@ -399,15 +399,22 @@ fn c01_c02(ctx: &Ctx, gi: usize, ri: usize, rep: &mut Report, note: &dyn Fn(&str
         }
         same
     };
-    for input in &inputs {
+    let max = ctx.len_for(e);
+    for whole in &inputs {
+      // for all-forms grammars also every Position / Span sub-input: the typed parser on the sub-input against
+      // pest on the slice (offsets and token spans shifted by the start of the sub-input)
+      let sub_ok = whole.chars().count() + 1 <= max || ctx.opts.only_input.is_some();
+      for (form, a, b_end) in forms_of(e, whole, sub_ok) {
+        let hi = if form == Form::Span { b_end } else { whole.len() };
+        let input: &str = &whole[a..hi];
         let case = Case {
             ctx,
             gi,
             ri,
-            input,
-            form: Form::Str,
-            a: 0,
-            b: input.len(),
+            input: whole,
+            form,
+            a,
+            b: b_end,
             init: &[],
         };
         note(&case.id());
@@ -417,7 +424,7 @@ fn c01_c02(ctx: &Ctx, gi: usize, ri: usize, rep: &mut Report, note: &dyn Fn(&str
             continue;
         }
         rep.cases += 1;
-        let o = match typed(e, ri, &case.req(what::PP)) {
+        let mut o = match typed(e, ri, &case.req(what::PP)) {
             Ok(o) => o,
             Err(p) => {
                 rep.violation(case.violation("typed-panic", exp_str(&b), format!("panic: {}", p), String::new()));
@@ -425,6 +432,30 @@ fn c01_c02(ctx: &Ctx, gi: usize, ri: usize, rep: &mut Report, note: &dyn Fn(&str
             }
         };
         rep.impl_validated += 1;
+        if a > 0 {
+            // make the observation relative to the start of the sub-input
+            let pp = o.pp.as_mut().unwrap();
+            let mut in_range = !pp.ok || pp.end >= a;
+            fn all_from(toks: &[Tok], a: usize) -> bool {
+                toks.iter().all(|t| t.start >= a && t.end >= a && all_from(&t.children, a))
+            }
+            in_range &= all_from(&pp.toks, a);
+            if !in_range {
+                rep.violation(case.violation("offset-before-start-of-sub-input", exp_str(&b), call_str(&o.pp), String::new()));
+                continue;
+            }
+            if pp.ok {
+                pp.end -= a;
+            }
+            fn shift_back(toks: &mut [Tok], a: usize) {
+                for t in toks.iter_mut() {
+                    t.start -= a;
+                    t.end -= a;
+                    shift_back(&mut t.children, a);
+                }
+            }
+            shift_back(&mut pp.toks, a);
+        }
         let pp = o.pp.as_ref().unwrap();
         if !trees {
             if (b.exp_ok && b.exp_end > 0) || (!b.exp_ok && !input.is_empty()) {
@@ -475,6 +506,7 @@ fn c01_c02(ctx: &Ctx, gi: usize, ri: usize, rep: &mut Report, note: &dyn Fn(&str
                 rep.sample(case.sample(&show_toks(g, &pp.toks), J::s("equal to pest's tree after pruning")));
             }
         }
+      }
     }
 }
 
